@@ -1838,38 +1838,7 @@ fn generate_constraints_item_decls0(ctx: &mut StaticsContext, item: &Rc<Item>) {
                 generate_constraints_func_decl(ctx, f.name.node(), &f.args, f.ret_type.as_ref());
             }
         }
-        ItemKind::TypeDef(typdefkind) => match typdefkind {
-            TypeDefKind::Enum(e) => {
-                let polyvar_scope = PolyvarScope::empty();
-                for field in e.variants.iter().flat_map(|variant| &variant.fields) {
-                    if let Some(default_val) = &field.default_val {
-                        let field_ty = field.ty.to_typevar(ctx);
-                        polyvar_scope.add_polys(&field_ty);
-                        generate_constraints_expr(
-                            ctx,
-                            &polyvar_scope,
-                            Mode::ana(field_ty),
-                            default_val,
-                        );
-                    }
-                }
-            }
-            TypeDefKind::Struct(s) => {
-                let polyvar_scope = PolyvarScope::empty();
-                for field in &s.fields {
-                    if let Some(default_val) = &field.default_val {
-                        let field_ty = field.ty.to_typevar(ctx);
-                        polyvar_scope.add_polys(&field_ty);
-                        generate_constraints_expr(
-                            ctx,
-                            &polyvar_scope,
-                            Mode::ana(field_ty),
-                            default_val,
-                        );
-                    }
-                }
-            }
-        },
+        ItemKind::TypeDef(_) => {}
         ItemKind::FuncDef(f) => {
             generate_constraints_func_decl(ctx, f.name.node(), &f.args, f.ret_type.as_ref());
         }
@@ -2215,11 +2184,46 @@ fn generate_constraints_item_stmts(ctx: &mut StaticsContext, mode: Mode, item: &
                 generate_constraints_func_def(ctx, &polyvar_scope, f, f.name.node());
             }
         }
-        ItemKind::TypeDef(_) => {}
+        // default values of fields
+        ItemKind::TypeDef(typdefkind) => match typdefkind {
+            TypeDefKind::Enum(e) => {
+                let polyvar_scope = PolyvarScope::empty();
+                for field in e.variants.iter().flat_map(|variant| &variant.fields) {
+                    if let Some(default_val) = &field.default_val {
+                        let field_ty = field.ty.to_typevar(ctx);
+                        polyvar_scope.add_polys(&field_ty);
+                        generate_constraints_expr(
+                            ctx,
+                            &polyvar_scope,
+                            Mode::ana(field_ty),
+                            default_val,
+                        );
+                    }
+                }
+            }
+            TypeDefKind::Struct(s) => {
+                let polyvar_scope = PolyvarScope::empty();
+                for field in &s.fields {
+                    if let Some(default_val) = &field.default_val {
+                        let field_ty = field.ty.to_typevar(ctx);
+                        polyvar_scope.add_polys(&field_ty);
+                        generate_constraints_expr(
+                            ctx,
+                            &polyvar_scope,
+                            Mode::ana(field_ty),
+                            default_val,
+                        );
+                    }
+                }
+            }
+        },
         ItemKind::FuncDef(f) => {
             generate_constraints_func_def(ctx, &PolyvarScope::empty(), f, f.name.node());
         }
-        ItemKind::FuncDecl { .. } => {}
+        ItemKind::FuncDecl(decl) => {
+            // a declaration without a body: only its default values are left to check
+            generate_constraints_func_args(ctx, &PolyvarScope::empty(), &decl.args, true);
+        }
     }
 }
 
@@ -3649,7 +3653,7 @@ fn generate_constraints_func_decl(
     out_annot: Option<&Rc<AstType>>,
 ) {
     // arguments
-    let ty_args = generate_constraints_func_args(ctx, &PolyvarScope::empty(), args);
+    let ty_args = generate_constraints_func_args(ctx, &PolyvarScope::empty(), args, false);
 
     // body
     let ty_body = TypeVar::fresh(ctx, Prov::FuncOut(node.clone()));
@@ -3676,7 +3680,7 @@ fn generate_constraints_func_def_helper(
     let polyvar_scope = polyvar_scope.new_scope();
 
     // arguments
-    let ty_args = generate_constraints_func_args(ctx, &polyvar_scope, args);
+    let ty_args = generate_constraints_func_args(ctx, &polyvar_scope, args, true);
 
     // body
     ctx.func_ret_stack.push(Prov::FuncOut(node.clone()));
@@ -3714,10 +3718,13 @@ fn generate_constraints_func_def(
     constrain(ctx, &ty_node, &ty_func);
 }
 
+// Default values are expressions: they are checked (check_defaults) once every declaration of
+// every file is known, not while the declarations are being gathered.
 fn generate_constraints_func_args(
     ctx: &mut StaticsContext,
     polyvar_scope: &PolyvarScope,
     args: &[ArgMaybeAnnotated],
+    check_defaults: bool,
 ) -> Vec<TypeVar> {
     args.iter()
         .map(|arg| {
@@ -3730,7 +3737,9 @@ fn generate_constraints_func_args(
                     polyvar_scope.add_polys(&arg_annot);
                     generate_constraints_fn_arg(ctx, Mode::ana(ty_annot.clone()), &arg.name);
 
-                    if let Some(default_val) = &arg.default_val {
+                    if let Some(default_val) = &arg.default_val
+                        && check_defaults
+                    {
                         generate_constraints_expr(
                             ctx,
                             polyvar_scope,
@@ -3741,7 +3750,9 @@ fn generate_constraints_func_args(
                 }
                 None => {
                     generate_constraints_fn_arg(ctx, Mode::Syn, &arg.name);
-                    if let Some(default_val) = &arg.default_val {
+                    if let Some(default_val) = &arg.default_val
+                        && check_defaults
+                    {
                         generate_constraints_expr(ctx, polyvar_scope, Mode::Syn, default_val);
                     }
                 }
